@@ -61,11 +61,13 @@ pub struct RScenario {
     pub max_len: Option<u32>,
     /// construct the reader with `with_buffer` and a recycled buffer (stale content, spare capacity)
     pub ctor: u8,
+    /// after frame #i has been read, `set_max_len(m)` for good
+    pub relimit: Option<(usize, u32)>,
 }
 
 impl RScenario {
     fn json(&self) -> serde_json::Value {
-        json!({"side": "reader", "frames": describe(&self.frames), "stream_hex": refmodel::hex(&wire(&self.frames)), "bytes_before_end_of_stream": self.avail, "max_len": self.max_len, "constructor": self.ctor})
+        json!({"side": "reader", "frames": describe(&self.frames), "stream_hex": refmodel::hex(&wire(&self.frames)), "bytes_before_end_of_stream": self.avail, "max_len": self.max_len, "constructor": self.ctor, "relimit": self.relimit.map(|(i, m)| vec![i as u64, m as u64])})
     }
 }
 
@@ -74,18 +76,28 @@ pub fn run_reader(sc: &RScenario, max_interrupts: u32, ch: SharedChooser, out: &
     data.truncate(sc.avail);
     let st = Rc::new(RefCell::new(SrcState { data, pos: 0, interrupts: 0, max_interrupts, reads: 0, ch }));
     let mut reader = if sc.ctor != 0 { Reader::with_buffer(Src(st.clone()), dirty_buffer(sc.ctor)) } else { Reader::new(Src(st.clone())) };
-    let max_len = match sc.max_len {
+    let mut max_len = match sc.max_len {
         Some(m) => {
             reader.set_max_len(m);
             m as usize
         }
         None => 512 * 1024,
     };
-    let expected = model(&sc.frames, sc.avail, max_len);
+    let first_limit = max_len;
+    let expected = model_limits(&sc.frames, sc.avail, &|i| match sc.relimit {
+        Some((k, m)) if i > k => m as usize,
+        _ => first_limit,
+    });
     let mut results = Vec::new();
-    for want in expected.values.iter().chain(std::iter::once(&expected.terminal)) {
+    for (ci, want) in expected.values.iter().chain(std::iter::once(&expected.terminal)).enumerate() {
         mcx::slot::beat();
-        if sc.ctor != 0 {
+        if let Some((k, m)) = sc.relimit {
+            if ci == k + 1 {
+                reader.set_max_len(m);
+                max_len = m as usize;
+            }
+        }
+        if sc.ctor != 0 && sc.ctor != 4 {
             reader.set_max_len(0);
             reader.set_max_len(max_len as u32);
         }
@@ -154,11 +166,13 @@ pub struct WScenario {
     pub values: Vec<Val>,
     pub max_len: Option<u32>,
     pub ctor: u8,
+    /// after value #i has been written, `set_max_len(m)` for good
+    pub relimit: Option<(usize, u32)>,
 }
 
 impl WScenario {
     fn json(&self) -> serde_json::Value {
-        json!({"side": "writer", "values": self.values.iter().map(|v| format!("{:?}", v)).collect::<Vec<_>>(), "max_len": self.max_len, "constructor": self.ctor})
+        json!({"side": "writer", "values": self.values.iter().map(|v| format!("{:?}", v)).collect::<Vec<_>>(), "max_len": self.max_len, "constructor": self.ctor, "relimit": self.relimit.map(|(i, m)| vec![i as u64, m as u64])})
     }
 }
 
@@ -172,7 +186,7 @@ fn val_payload(v: &Val) -> Option<Vec<u8>> {
 pub fn run_writer(sc: &WScenario, max_interrupts: u32, ch: SharedChooser, out: &mut Option<usize>) -> Result<(), String> {
     let st = Rc::new(RefCell::new(SinkState { coarse: sc.values.iter().any(|v| matches!(v, Val::Arr(a) if a.len() > 24)), received: Vec::new(), interrupts: 0, max_interrupts, writes: 0, ch }));
     let mut writer = if sc.ctor != 0 { Writer::with_buffer(Sink(st.clone()), dirty_buffer(sc.ctor)) } else { Writer::new(Sink(st.clone())) };
-    let max_len = match sc.max_len {
+    let mut max_len = match sc.max_len {
         Some(m) => {
             writer.set_max_len(m);
             m as usize
@@ -182,8 +196,14 @@ pub fn run_writer(sc: &WScenario, max_interrupts: u32, ch: SharedChooser, out: &
     let mut model: Vec<u8> = Vec::new();
     for (i, v) in sc.values.iter().enumerate() {
         mcx::slot::beat();
+        if let Some((k, m)) = sc.relimit {
+            if i == k + 1 {
+                writer.set_max_len(m);
+                max_len = m as usize;
+            }
+        }
         let payload = val_payload(v);
-        if sc.ctor != 0 {
+        if sc.ctor != 0 && sc.ctor != 4 {
             writer.set_max_len(0);
             writer.set_max_len(max_len as u32);
         }
@@ -244,12 +264,12 @@ pub fn reader_scenarios(tier: Tier) -> (Vec<RScenario>, u32, String) {
                 if avail < total && !(ml.is_none() || ml == Some(largest)) {
                     continue;
                 }
-                out.push(RScenario { frames: fs.clone(), avail, max_len: ml, ctor: 0 });
+                out.push(RScenario { frames: fs.clone(), avail, max_len: ml, ctor: 0, relimit: None });
                 if ml.is_none() && avail == total {
-                    out.push(RScenario { frames: fs.clone(), avail, max_len: ml, ctor: 1 });
+                    out.push(RScenario { frames: fs.clone(), avail, max_len: ml, ctor: 1, relimit: None });
                     if fs.len() <= 2 {
-                        out.push(RScenario { frames: fs.clone(), avail, max_len: ml, ctor: 2 });
-                        out.push(RScenario { frames: fs.clone(), avail, max_len: ml, ctor: 3 });
+                        out.push(RScenario { frames: fs.clone(), avail, max_len: ml, ctor: 2, relimit: None });
+                        out.push(RScenario { frames: fs.clone(), avail, max_len: ml, ctor: 3, relimit: None });
                     }
                 }
             }
@@ -265,7 +285,7 @@ pub fn reader_scenarios(tier: Tier) -> (Vec<RScenario>, u32, String) {
         if l >= 500_000 {
             // the default maximum (512 KiB): a frame of exactly that size is read, one byte more is refused
             let fs = vec![big.clone()];
-            out.push(RScenario { frames: fs.clone(), avail: wire(&fs).len(), max_len: None, ctor: 0 });
+            out.push(RScenario { frames: fs.clone(), avail: wire(&fs).len(), max_len: None, ctor: 0, relimit: None });
             continue;
         }
         let seqs = if huge { vec![vec![big.clone()]] } else { vec![vec![big.clone()], vec![kinds[0].clone(), big.clone(), kinds[2].clone()]] };
@@ -274,24 +294,49 @@ pub fn reader_scenarios(tier: Tier) -> (Vec<RScenario>, u32, String) {
             let lead = if fs.len() == 1 { 0 } else { 4 + kinds[0].payload.len() };
             let cuts = if huge { vec![total, total - 1, lead + 4 + l / 2] } else { vec![total, total - 1, lead + 4 + l, lead + 4 + l - 1, lead + 4 + l / 2, lead + 4, lead + 3] };
             for avail in cuts {
-                out.push(RScenario { frames: fs.clone(), avail, max_len: None, ctor: 0 });
+                out.push(RScenario { frames: fs.clone(), avail, max_len: None, ctor: 0, relimit: None });
             }
-            out.push(RScenario { frames: fs.clone(), avail: total, max_len: Some(l as u32), ctor: 1 });
-            out.push(RScenario { frames: fs.clone(), avail: total, max_len: Some(l as u32 - 1), ctor: 0 });
+            out.push(RScenario { frames: fs.clone(), avail: total, max_len: Some(l as u32), ctor: 1, relimit: None });
+            out.push(RScenario { frames: fs.clone(), avail: total, max_len: Some(l as u32 - 1), ctor: 0, relimit: None });
         }
+    }
+    // a recycled buffer with more capacity than the default maximum does not raise the limit
+    for big in large_frames().into_iter().filter(|f| f.payload.len() >= 500_000) {
+        let fs = vec![big.clone()];
+        out.push(RScenario { frames: fs.clone(), avail: wire(&fs).len(), max_len: None, ctor: 4, relimit: None });
+    }
+    // the limit changed on a reader that has been used: lowered after a larger frame, lowered to exactly the next
+    // frame's size, raised
+    {
+        let big = large_frames()[2].clone(); // 257 payload bytes
+        let small = kinds[2].clone(); // [1,2]: 3 payload bytes
+        let tiny = kinds[0].clone(); // [5]: 2 payload bytes
+        for (fs, re) in [
+            (vec![big.clone(), small.clone()], (0usize, 2u32)),
+            (vec![big.clone(), small.clone()], (0, 3)),
+            (vec![small.clone(), tiny.clone()], (0, 1)),
+            (vec![small.clone(), tiny.clone(), small.clone()], (0, 2)),
+            (vec![tiny.clone(), small.clone()], (0, 2)),
+        ] {
+            let total = wire(&fs).len();
+            out.push(RScenario { frames: fs.clone(), avail: total, max_len: None, ctor: 0, relimit: Some(re) });
+            out.push(RScenario { frames: fs.clone(), avail: total, max_len: Some(300), ctor: 1, relimit: Some(re) });
+        }
+        let fs = vec![small.clone(), tiny.clone()];
+        out.push(RScenario { frames: fs.clone(), avail: wire(&fs).len(), max_len: Some(2), ctor: 0, relimit: Some((0, 3)) });
     }
     for h in hostile_frames() {
         for lead in [vec![], vec![kinds[0].clone()]] {
             let mut fs = lead.clone();
             fs.push(h.clone());
             let total = wire(&fs).len();
-            out.push(RScenario { frames: fs.clone(), avail: total, max_len: None, ctor: 0 });
-            out.push(RScenario { frames: fs.clone(), avail: total, max_len: Some(8), ctor: 1 });
+            out.push(RScenario { frames: fs.clone(), avail: total, max_len: None, ctor: 0, relimit: None });
+            out.push(RScenario { frames: fs.clone(), avail: total, max_len: Some(8), ctor: 1, relimit: None });
         }
     }
     out.sort_by_key(|s| std::cmp::Reverse(s.avail));
     let bound = format!(
-        "streams of 0..={} frames over {} payload kinds, <= {} bytes, plus 3 hostile declared lengths, plus frames with payloads of 255/256/257/65535/65536/65537 bytes (alone and between two small frames, cut at 7 points; reads of more than 32 bytes are delivered whole or, as one deviation each, as 1 / half / all-but-one bytes); Reader::new and Reader::with_buffer(recycled buffer); every truncation point; max_len in {{default, L-1, L, L+1}}; all compositions of every read into delivered sizes; <= {} Interrupted errors anywhere",
+        "streams of 0..={} frames over {} payload kinds, <= {} bytes, plus 3 hostile declared lengths, plus frames with payloads of 255/256/257/65535/65536/65537 bytes (alone and between two small frames, cut at 7 points; reads of more than 32 bytes are delivered whole or, as one deviation each, as 1 / half / all-but-one bytes); Reader::new and Reader::with_buffer(recycled buffer, also one with 640 KiB of capacity); set_max_len lowered / raised after a frame on a used reader (11 scenarios); every truncation point; max_len in {{default, L-1, L, L+1}}; all compositions of every read into delivered sizes; <= {} Interrupted errors anywhere",
         max_frames, kinds.len(), max_bytes, interrupts
     );
     (out, interrupts, bound)
@@ -320,11 +365,11 @@ pub fn writer_scenarios(tier: Tier) -> (Vec<WScenario>, u32, String) {
     let mut out = Vec::new();
     for s in all {
         for ml in [None, Some(1u32), Some(2), Some(3)] {
-            out.push(WScenario { values: s.clone(), max_len: ml, ctor: 0 });
+            out.push(WScenario { values: s.clone(), max_len: ml, ctor: 0, relimit: None });
         }
-        out.push(WScenario { values: s.clone(), max_len: None, ctor: 1 });
-        out.push(WScenario { values: s.clone(), max_len: None, ctor: 2 });
-        out.push(WScenario { values: s.clone(), max_len: None, ctor: 3 });
+        out.push(WScenario { values: s.clone(), max_len: None, ctor: 1, relimit: None });
+        out.push(WScenario { values: s.clone(), max_len: None, ctor: 2, relimit: None });
+        out.push(WScenario { values: s.clone(), max_len: None, ctor: 3, relimit: None });
     }
     for big in large_frames() {
         let v = Val::Arr(big.value.clone().unwrap());
@@ -334,18 +379,35 @@ pub fn writer_scenarios(tier: Tier) -> (Vec<WScenario>, u32, String) {
             continue;
         }
         if l >= 500_000 {
-            out.push(WScenario { values: vec![v.clone(), Val::Arr(vec![5])], max_len: None, ctor: 0 });
+            out.push(WScenario { values: vec![v.clone(), Val::Arr(vec![5])], max_len: None, ctor: 0, relimit: None });
+            out.push(WScenario { values: vec![v.clone(), Val::Arr(vec![5])], max_len: None, ctor: 4, relimit: None });
             continue;
         }
         let seqs = if huge { vec![vec![v.clone()], vec![v.clone(), Val::FailEnc, Val::Arr(vec![5])]] } else { vec![vec![v.clone()], vec![Val::Arr(vec![5]), v.clone(), Val::Arr(vec![1, 2])], vec![v.clone(), Val::FailEnc, v.clone()]] };
         for seq in seqs {
-            out.push(WScenario { values: seq.clone(), max_len: None, ctor: 0 });
-            out.push(WScenario { values: seq.clone(), max_len: Some(l), ctor: 1 });
-            out.push(WScenario { values: seq.clone(), max_len: Some(l - 1), ctor: 0 });
+            out.push(WScenario { values: seq.clone(), max_len: None, ctor: 0, relimit: None });
+            out.push(WScenario { values: seq.clone(), max_len: Some(l), ctor: 1, relimit: None });
+            out.push(WScenario { values: seq.clone(), max_len: Some(l - 1), ctor: 0, relimit: None });
         }
     }
+    {
+        let big = Val::Arr(large_frames()[2].value.clone().unwrap());
+        let small = Val::Arr(vec![1, 2]);
+        let tiny = Val::Arr(vec![5]);
+        for (vals, re) in [
+            (vec![big.clone(), small.clone()], (0usize, 2u32)),
+            (vec![big.clone(), small.clone()], (0, 3)),
+            (vec![small.clone(), tiny.clone()], (0, 1)),
+            (vec![small.clone(), tiny.clone(), small.clone()], (0, 2)),
+            (vec![tiny.clone(), small.clone()], (0, 2)),
+        ] {
+            out.push(WScenario { values: vals.clone(), max_len: None, ctor: 0, relimit: Some(re) });
+            out.push(WScenario { values: vals.clone(), max_len: Some(300), ctor: 1, relimit: Some(re) });
+        }
+        out.push(WScenario { values: vec![small.clone(), tiny.clone()], max_len: Some(2), ctor: 0, relimit: Some((0, 3)) });
+    }
     let bound = format!(
-        "0..={} values over {} kinds, max_len in {{default, 1, 2, 3}}, plus values with payloads of 255..65537 bytes (max_len L-1, L, default; writes of more than 32 bytes accepted whole or, as one deviation each, 1 / half / all-but-one bytes); Writer::new and Writer::with_buffer(recycled buffer); all splits of every write into accepted sizes; <= {} Interrupted errors anywhere",
+        "0..={} values over {} kinds, max_len in {{default, 1, 2, 3}}, plus values with payloads of 255..65537 bytes (max_len L-1, L, default; writes of more than 32 bytes accepted whole or, as one deviation each, 1 / half / all-but-one bytes); Writer::new and Writer::with_buffer(recycled buffer, also one with 640 KiB of capacity); set_max_len lowered / raised after a value on a used writer (11 scenarios); all splits of every write into accepted sizes; <= {} Interrupted errors anywhere",
         max_vals, vals.len(), interrupts
     );
     (out, interrupts, bound)
@@ -448,7 +510,7 @@ pub fn replay_case(case: &serde_json::Value) -> Result<(), String> {
         let names: Vec<String> = sc["frames"].as_array().unwrap().iter().map(|x| x.as_str().unwrap().to_string()).collect();
         let all: Vec<Frame> = frame_kinds().into_iter().chain(hostile_frames()).chain(large_frames()).collect();
         let frames: Vec<Frame> = names.iter().map(|n| all.iter().find(|f| f.name == n).unwrap().clone()).collect();
-        let scen = RScenario { frames, avail: sc["bytes_before_end_of_stream"].as_u64().unwrap() as usize, max_len: sc["max_len"].as_u64().map(|x| x as u32), ctor: sc["constructor"].as_u64().unwrap_or(0) as u8 };
+        let scen = RScenario { frames, avail: sc["bytes_before_end_of_stream"].as_u64().unwrap() as usize, max_len: sc["max_len"].as_u64().map(|x| x as u32), ctor: sc["constructor"].as_u64().unwrap_or(0) as u8, relimit: sc["relimit"].as_array().map(|a| (a[0].as_u64().unwrap() as usize, a[1].as_u64().unwrap() as u32)) };
         let mut o = None;
         let (labels, res) = replay(&choices, |ch| run_reader(&scen, ints, ch, &mut o));
         for l in labels {
